@@ -7,7 +7,7 @@ from ..model import AnalysisError, attr_path, dotted, local_aliases, unparse, wa
 from ..report import Check
 from .loader import from_protobuf_cache, lookup_bindings, reference_sites, stage_order
 from .ownership import ownership
-from .purity import codec_state
+from .purity import no_result_caches, value_passthrough, codec_state
 
 RULES = {
     "R09.1": "references resolve only through the loading IR's table, with a kind check that "
@@ -49,6 +49,7 @@ def run(chk: Check) -> None:
     from .lookups import truthiness_safe
     truthiness_safe(chk, "R09.1")
     codec_state(chk, "R09.5", ("serialization", "auxdata", "offset"))
+    no_result_caches(chk, "R09.5")
     from .c07 import run as _c07
     sub = chk.sub()
     _c07(sub)
